@@ -80,6 +80,12 @@ def call(ex, f, args, kw, st, node=None):
     if f is enumerate:
         lib('enumerate')
         return [(st, make_iter(ex, st, args[0], 'enum_iter'))]
+    if f is reversed and len(args) == 1 and isinstance(args[0], LRef):
+        lib('reversed(list)')
+        items = st.lists[args[0].lid]
+        if all(x[0] == 'el' for x in items):
+            return [(st, ex.new_list(st, list(reversed(items))))]
+        return [(st, Opaque('reversed', args[0]))]
     if f is iter:
         lib('iter')
         return [(st, make_iter(ex, st, args[0], 'seq_iter'))]
